@@ -501,7 +501,7 @@ def run(chk, prog, tier):
     chk.guard('offset bookkeeping', check_offsets, chk, prog, env, model)
     chk.guard('setcb table', check_setcb, chk, prog, env, model)
     check_builder_effects(chk, prog)
-    chk.guard('private key / ordering', c02.check_order, chk, prog, env)
+    chk.guard('private key / ordering', c02.check_order, chk, prog, env, variants=('builder',))
     chk.guard('setkey table', c02.check_setkey, chk, prog, env)
     chk.assumptions += ['that jansson\'s dump is valid JSON and that the base64 text decodes back are not decided (C11 limits); actual clock behaviour is not decided']
     return chk.finish(
